@@ -118,6 +118,9 @@ class ConsumerClient(Client):
 
         def use():
             k = r.random()
+            if k < 0.25:
+                return {"op": "sample_n_outputs", "s": sid,
+                        "n": 2000 if big else 50, "seed": self.seed()}
             if k < 0.5:
                 return {"op": "sample_n_inputs", "s": sid,
                         "n": 2000 if big else 50, "seed": self.seed()}
@@ -185,6 +188,30 @@ class ConsumerClient(Client):
         self.queue = q
         w.stats["intent:postsel_session"] += 1
         w.stats["fault:reject_issued"] += 1
+        return self.queued()
+
+    def predicate_session(self, sid):
+        """Two different predicate functions that come from the same factory
+        (same code object, different closure), swapped under a live consumer."""
+        r, w = self.rng, self.w
+        if len(w.pool["ps"]) >= 8:
+            return None
+        a, b = w.new_id("ps"), w.new_id("ps")
+        na, nb = r.sample(["max1", "even", "m0_lt2", "some", "m0_zero", "all"], 2)
+        attr = "post_select" if self.kind == "qs" else None
+        if attr is None:
+            return None
+        self.queue = [
+            {"op": "new_postsel", "kind": "pred", "pred": na, "out": a},
+            {"op": "new_postsel", "kind": "pred", "pred": nb, "out": b},
+            {"op": "cons_set", "kind": "qs", "s": sid, "attr": attr, "ref": a},
+            self.use_op(sid),
+            {"op": "cons_set", "kind": "qs", "s": sid, "attr": attr, "ref": b},
+            self.use_op(sid),
+            {"op": "cons_set", "kind": "qs", "s": sid, "attr": attr, "value": None},
+            self.use_op(sid),
+        ]
+        w.stats["intent:predicate_session"] += 1
         return self.queued()
 
     def herald_session(self, sid):
@@ -379,8 +406,6 @@ class SamplerUser(ConsumerClient):
             return self.variant_intent(sid)
         if r.random() < 0.03 and len(w.pool["p"]) < 8:
             return self.mzi_intent(sid)
-        if self.kind == "qs" and r.random() < 0.03:
-            return self.postsel_session(sid)
         if cfg.get("big_n") and r.random() < 0.05:
             return self.herald_session(sid)
         if r.random() < 0.03:
@@ -615,6 +640,10 @@ class QuickUser(ConsumerClient):
             return self.variant_intent(sid)
         if r.random() < 0.03 and len(w.pool["p"]) < 8:
             return self.mzi_intent(sid)
+        if r.random() < 0.03:
+            return self.postsel_session(sid)
+        if r.random() < 0.03:
+            return self.predicate_session(sid)
         k = r.choice(["read", "read", "sample", "sample", "sample_o",
                       "sample_o", "circuit", "circuit", "state", "pnr",
                       "ps", "ps_add", "ps_add", "edit_circuit", "edit_circuit",
